@@ -39,10 +39,11 @@ type jcut struct {
 	Obs  *jobs `json:"impl_obs"`
 }
 type jcrash struct {
-	Part int    `json:"part"`
-	Size int    `json:"impl_log_size"`
-	Last int    `json:"impl_last_entry_size"`
-	Cuts []jcut `json:"cuts"`
+	Part  int    `json:"part"`
+	Size  int    `json:"impl_log_size"`
+	Last  int    `json:"impl_last_entry_size"`
+	Bytes string `json:"impl_log_bytes_hex"`
+	Cuts  []jcut `json:"cuts"`
 }
 type jcase struct {
 	Gen    string    `json:"gen,omitempty"`
@@ -294,8 +295,9 @@ func (r *runner) crash() (*jcrash, string, error) {
 		cr.Cuts = append(cr.Cuts, jcut{Keep: keep, Obs: obs})
 		cuts = append(cuts, vh.Pair(vh.Nat(keep), obsT(obs)))
 	}
-	t := fmt.Sprintf("(Some {| cr_part := %s; cr_size := %s; cr_last := %s; cr_cuts := %s |})",
-		vh.Nat(part), vh.N(uint64(size)), vh.Nat(last), vh.List(cuts))
+	cr.Bytes = fmt.Sprintf("%x", data)
+	t := fmt.Sprintf("(Some {| cr_part := %s; cr_size := %s; cr_last := %s; cr_bytes := %s; cr_cuts := %s |})",
+		vh.Nat(part), vh.N(uint64(size)), vh.Nat(last), vh.Bytes(data), vh.List(cuts))
 	return cr, t, nil
 }
 
